@@ -1830,6 +1830,11 @@ class Path:
             r = seqs.call_uf(self, f if f.self_obj is None else FuncV(info), args, kwargs)
             if r is not seqs.NOT_HANDLED:
                 return r
+        if not force_inline and getattr(self, 'in_global', 0):
+            # a module-level constant of the repository (e.g. interpreter._PY_CTX = IEEEContext(11, 64)) is COMPUTED from
+            # concrete arguments: its constructor is executed, never replaced by a contract (a fresh symbolic result
+            # would make the constant's fields unknown)
+            force_inline = True
         if not force_inline:
             c = self.ex.contract_for(info, self, args, kwargs)
             if c is not None and not self.ex.args_fit(c, info, args, kwargs):
